@@ -4,12 +4,13 @@ CHECK = {
     "level": "exploration",
     "assumptions": [
         "the reference model (set comprehension over the 8,640-case universe) is a faithful reading of config.proto, docs/configuring_and_running_tests.md and the property statement; where those are ambiguous (codecs: [CODEC_TEXT] only; an entry naming gRPC when trailers are unsupported; an entry that can match nothing under the given features; supports_h2c without HTTP/2; supports_tls_client_certs: false without TLS) both behaviours are accepted",
-        "configurations outside the alphabet (UNSPECIFIED values inside repeated fields, CODEC_TEXT inside entries, lists longer than 2+2) are not covered",
+        "an include/exclude entry with codec: CODEC_TEXT (config.proto: 'not used; will be ignored') is read as an entry that matches no case (no case has that codec); rejecting such an entry is accepted as well",
+        "configurations outside the alphabet (UNSPECIFIED values inside repeated fields, lists longer than 2+2) are not covered",
     ],
     "manifest": {
         "engine": "ENUM",
         "technique": "bounded-exhaustive enumeration against a reference model",
-        "text": "Every Config message of the alphabet is serialised and handed to the real parseConfig: all subsets of versions x protocols x stream types (thorough: all 32 subsets, quick: the 8 subsets of unary/half/full) x all 3^7 tri-states of the seven support flags (thorough: once with one explicit codec/compression, once with both left to their defaults); the design's 6 codec x 4 compression choices on all version/protocol subsets x 3^4 transport flags; the codecs field as an ordered list: every arrangement of every subset of {proto, json, text} with two or three elements plus two lists with a repeated element (14 lists; the deprecated CODEC_TEXT first, in the middle and last) on all version/protocol subsets x 3^4 transport flags (thorough: also with explicit compressions and as YAML); include/exclude lists of one entry over all 7,776 entries (every field independently omitted) on 48 feature bases (quick: 8) plus 4 (quick: 2) bases whose codecs list has CODEC_TEXT in front of or between the codecs in use, lists of two (include+exclude, 2 includes, 2 excludes) over a 40-entry subset (quick: 14), 2+2 lists on four bases (thorough); one include/exclude entry over version x protocol x {any, unary, half, full} x use_tls on every subset of versions x protocol / stream-type lists x the tri-states of supports_h2c, supports_tls and (thorough: independently) half-duplex-over-HTTP/1.1 and trailers, so that entries name values outside the listed ones while the flags they depend on are absent, true and false (family F: quick 221 k, thorough 3.0 M); forms: protojson of the Go struct, block-style YAML with proto field names for a sub-family, empty input for the default configuration, every repeated field in descending order with its first element repeated, every repeated field with each element written twice (feature-only configurations on all version/protocol subsets; every one-entry include/exclude list on the bases HTTP/1.1-only, Connect-only and HTTP/2+3, thorough: on every base that writes a list). A configuration whose lists are written in another order / with repeated elements must have the outcome (error or not, same set) of the plainly written one, also where the documents leave the outcome itself open. The returned slice is compared as a set with Spec = cases implied by the defaulted features + matches of include entries - matches of exclude entries, computed by set algebra over the universe of 8,640 config cases; every produced case is checked against the property's list of impossible combinations; required, acceptable and unexpected errors are told apart. quick ~2.1 M configurations.",
+        "text": "Every Config message of the alphabet is serialised and handed to the real parseConfig: all subsets of versions x protocols x stream types (thorough: all 32 subsets, quick: the 8 subsets of unary/half/full) x all 3^7 tri-states of the seven support flags (thorough: once with one explicit codec/compression, once with both left to their defaults); the design's 6 codec x 4 compression choices on all version/protocol subsets x 3^4 transport flags; the codecs field as an ordered list: every arrangement of every subset of {proto, json, text} with two or three elements plus two lists with a repeated element (14 lists; the deprecated CODEC_TEXT first, in the middle and last) on all version/protocol subsets x 3^4 transport flags (thorough: also with explicit compressions and as YAML); include/exclude lists of one entry over all 7,776 entries (every field independently omitted) on 48 feature bases (quick: 8) plus 4 (quick: 2) bases whose codecs list has CODEC_TEXT in front of or between the codecs in use, lists of two (include+exclude, 2 includes, 2 excludes) over a 40-entry subset (quick: 14), 2+2 lists on four bases (thorough); one include/exclude entry over version x protocol x {any, unary, half, full} x use_tls on every subset of versions x protocol / stream-type lists x the tri-states of supports_h2c, supports_tls and (thorough: independently) half-duplex-over-HTTP/1.1 and trailers, so that entries name values outside the listed ones while the flags they depend on are absent, true and false (family F: quick 221 k, thorough 3.0 M); every entry that names the deprecated CODEC_TEXT (5,184: each of the other seven fields independently omitted or given, up to entries that give all eight fields) as the only include / exclude entry on 3 bases (thorough: 48) - it must add and remove nothing (family G); one include entry naming a single value (every value of every enum field) x one exclude entry that gives only use_* flags (all 27 combinations) x features that restrict one axis, all five or none to their first value x supports_tls / client certs / receive limit - cases included outside the features are not matched by an exclude entry whose omitted fields range over the features (family H, 45 k); forms: protojson of the Go struct, block-style YAML with proto field names for a sub-family, empty input for the default configuration, every repeated field in descending order with its first element repeated, every repeated field with each element written twice (feature-only configurations on all version/protocol subsets; every one-entry include/exclude list on the bases HTTP/1.1-only, Connect-only and HTTP/2+3, thorough: on every base that writes a list). A configuration whose lists are written in another order / with repeated elements must have the outcome (error or not, same set) of the plainly written one, also where the documents leave the outcome itself open. The returned slice is compared as a set with Spec = cases implied by the defaulted features + matches of include entries - matches of exclude entries, computed by set algebra over the universe of 8,640 config cases; every produced case is checked against the property's list of impossible combinations; required, acceptable and unexpected errors are told apart. quick ~2.19 M configurations.",
         "note": "Spec is written from config.proto, the docs and the property text, not from config.go. Violation keys are kind + the smallest configuration (greedy one-step simplification) that still shows the kind.",
         "design_ref": "DESIGN.md §2.2, §4 C06",
     },
